@@ -538,7 +538,21 @@ class ModuleV:
         return self
 
 
-UNRESOLVED = object()
+class _Sentinel:
+    def __init__(self, name):
+        self.name = name
+
+    def __repr__(self):
+        return self.name
+
+    def __deepcopy__(self, memo):
+        return self
+
+    def __copy__(self):
+        return self
+
+
+UNRESOLVED = _Sentinel("UNRESOLVED")
 
 
 class LazyV:
@@ -548,6 +562,7 @@ class LazyV:
         self.name = name
         self.options = options
         self.cell = [UNRESOLVED]
+        self.persist = True
 
     def __repr__(self):
         return f"<lazy {self.name}={'?' if self.cell[0] is UNRESOLVED else self.cell[0]!r}>"
